@@ -3,11 +3,17 @@
    the repair symbols in increasing ESI order every parity equation sums to zero, source symbols are
    untouched, and the repair values are the unique ones with that property.  Universal in the
    matrix (any staircase-shaped matrix), its size and the symbol group.
-   Reed-Solomon part (product by the systematic Vandermonde generator) is not proved yet: the C is
-   compared with an independent python implementation of the canonical generator for every (k, n) of
-   GF(2^4) and sampled (k, n) of GF(2^8), both codecs (byte compatibility included). *)
+   Reed-Solomon part: RSEnc.v is the symbol-level model (repair symbol j = sum_i G[j][i] * source i,
+   byte by byte; two field elements per byte for GF(2^4)) with G the canonical generator of RSCanon.v.
+   Theorems: every byte of a model repair symbol is the canonical codeword element at position j of
+   that byte column; G is systematic; G is "obtained from the Vandermonde matrix on the points 0, 1,
+   x, x^2, ...": its row j satisfies (row j) * V_k = (1, x_j, x_j^2, ..., x_j^(k-1)) and is the ONLY
+   row vector doing so (so G = V_n * V_k^-1), for every k <= 2^m, in GF(2)[x]/(x^8+x^4+x^3+x^2+1) and
+   GF(2)[x]/(x^4+x+1).  The C encoders (both codecs; codec 1 and codec 2 with m=8 therefore byte
+   compatible) are compared with the extracted model on every request of the check. *)
 From Coq Require Import Arith List Bool.
-From OFV Require Import XorGroup LdpcEnc.
+From Coq Require Import NArith.
+From OFV Require Import XorGroup LdpcEnc GF2Poly GFField RSCanon RSEnc.
 Import ListNotations.
 
 Theorem ldpc_encode_zero_sum :
@@ -29,5 +35,48 @@ Theorem ldpc_encode_unique :
   forall c, c < r -> t1 c = t2 c.
 Proof. exact ldpc_encode_unique_proof. Qed.
 
+Theorem rs256_repair_bytes_are_canonical :
+  forall k L src j b, length src = k -> b < L ->
+  nth b (rs8_repair k L (invdens 8 P256 mul256 inv256 k) src j) 0%N = elem256 k (byte_col src b) j.
+Proof. exact rs8_repair_byte. Qed.
+
+Theorem rs16_repair_bytes_are_canonical :
+  forall k L src j b, length src = k -> b < L ->
+  nth b (rs4_repair k L (invdens 4 P16 mul16 inv16 k) src j) 0%N =
+  N.lor (N.shiftl (elem16 k (map (fun x => N.shiftr x 4) (byte_col src b)) j) 4)
+        (elem16 k (map (fun x => N.land x 15) (byte_col src b)) j).
+Proof. exact rs4_repair_byte. Qed.
+
+Theorem rs256_generator_times_vandermonde :
+  forall k j t, k <= 256 -> j < 256 -> t < k ->
+  fold_right N.lxor 0%N (map (fun i => mul256 (coef256 k i j) (pow256 (rs_point 8 P256 i) t)) (seq 0 k)) = pow256 (rs_point 8 P256 j) t.
+Proof. exact coef256_vandermonde. Qed.
+
+Theorem rs256_generator_unique :
+  forall k j g, k <= 256 -> j < 256 -> length g = k -> Forall (fun a => (a < 256)%N) g ->
+  (forall t, t < k -> fold_right N.lxor 0%N (map (fun i => mul256 (nth i g 0%N) (pow256 (rs_point 8 P256 i) t)) (seq 0 k)) = pow256 (rs_point 8 P256 j) t) ->
+  forall i, i < k -> nth i g 0%N = coef256 k i j.
+Proof. exact coef256_unique. Qed.
+
+Theorem rs16_generator_times_vandermonde :
+  forall k j t, k <= 16 -> j < 16 -> t < k ->
+  fold_right N.lxor 0%N (map (fun i => mul16 (coef16 k i j) (pow16 (rs_point 4 P16 i) t)) (seq 0 k)) = pow16 (rs_point 4 P16 j) t.
+Proof. exact coef16_vandermonde. Qed.
+
+Theorem rs16_generator_unique :
+  forall k j g, k <= 16 -> j < 16 -> length g = k -> Forall (fun a => (a < 16)%N) g ->
+  (forall t, t < k -> fold_right N.lxor 0%N (map (fun i => mul16 (nth i g 0%N) (pow16 (rs_point 4 P16 i) t)) (seq 0 k)) = pow16 (rs_point 4 P16 j) t) ->
+  forall i, i < k -> nth i g 0%N = coef16 k i j.
+Proof. exact coef16_unique. Qed.
+
+Theorem rs256_generator_systematic :
+  forall k i j, k <= 256 -> i < k -> j < k -> coef256 k i j = if Nat.eqb i j then 1%N else 0%N.
+Proof. exact coef256_systematic. Qed.
+
 Print Assumptions ldpc_encode_zero_sum.
+Print Assumptions rs256_repair_bytes_are_canonical.
+Print Assumptions rs16_repair_bytes_are_canonical.
+Print Assumptions rs256_generator_times_vandermonde.
+Print Assumptions rs256_generator_unique.
+Print Assumptions rs16_generator_unique.
 Print Assumptions ldpc_encode_unique.
